@@ -181,10 +181,17 @@ def run(ctx: Ctx):
         case, impl = rig.gen_backups_and_run(rng2)
         cases.append((f"backups:{k}", case))
         pre[f"backups:{k}"] = impl
-    for k in range(ctx.scale(50, 500)):
-        case, impl = rig.gen_fixrace_and_run(rng2)
+    # fixrace: the 70 (halt, j, c) combinations are ENUMERATED on every run (round 7); thorough adds random ones
+    for k in range(len(rig.FIXRACE_ALL) + ctx.scale(0, 430)):
+        case, impl = rig.gen_fixrace_and_run(rng2, force=rig.FIXRACE_ALL[k] if k < len(rig.FIXRACE_ALL) else None)
         cases.append((f"fixrace:{k}", case))
         pre[f"fixrace:{k}"] = impl
+    # countdowns: every (fixing_duration, restart_duration) in 0..3 x 0..3, ENUMERATED
+    for c in range(4):
+        for r in range(4):
+            case, impl = rig.gen_countdowns_and_run(rng2, c, r)
+            cases.append((f"countdowns:{c}:{r}", case))
+            pre[f"countdowns:{c}:{r}"] = impl
     impl_all, lines_all, bounds = [], [], []
     for name, case in cases:
         impl = pre[name] if name in pre else rig.run_impl(case)
